@@ -35,6 +35,9 @@ def histories(draw, tier):
     items = [uids.fix(("K", k)) for k in draw(st.lists(st.integers(0, nkeys - 1), min_size=draw(st.sampled_from([0, 3, 5])),
                                                              max_size=10 if tier == "quick" else 14))]
     key = draw(st.one_of(st.none(), st.lists(st.integers(0, 2).map(lambda n: ["i", n]), min_size=1, max_size=4)))
+    if key is not None and draw(st.integers(0, 4)) == 0:
+        # keys whose equality is reflexive and symmetric but NOT transitive (tolerance keys)
+        key = [["T", k[1]] for k in draw(st.lists(st.integers(0, 4).map(lambda n: ["i", n]), min_size=2, max_size=5))]
     if key is None and items and draw(st.integers(0, 3)) == 0:
         # without a key function the items are their own keys - also when an item happens to be awaitable
         for pos in draw(st.lists(st.integers(0, len(items) - 1), min_size=1, max_size=3)):
